@@ -522,10 +522,13 @@ class Evaluator(object):
         defaults = fnode.args.defaults
         n_required = len(params) - len(defaults)
         kw = dict(kw or {})
-        if len(args) > len(params) or fnode.args.vararg or fnode.args.kwarg or any(k not in params for k in kw):
+        if (len(args) > len(params) and not fnode.args.vararg) or fnode.args.kwarg or any(k not in params for k in kw):
             raise NotConst('call of %s with %d arguments' % (fnode.name, len(args)))
         scope = _Chain(outer) if outer is not None else {}
         bound = set()
+        if fnode.args.vararg:
+            scope[fnode.args.vararg.arg] = tuple(args[len(params):])
+            args = args[:len(params)]
         for p_, a_ in zip(params, args):
             scope[p_] = a_
             bound.add(p_)
